@@ -335,7 +335,7 @@ class Contract(object):
                  yield_count=None, yield_at=None, yield_post=None, loops=None, result=None, effect=None,
                  inline=False, opaque=(), note="", exc_ensures=None, modifies=(),
                  yield_seq=0, yield_encode=None, yields_eq=None, native_yields=None, native_post=None, findings=(),
-                 name=None, when=None, examples=None, external_args=(), result_pytype=None, externals=(), unfold_depth=None, no_native_replay=False):
+                 name=None, when=None, examples=None, external_args=(), result_pytype=None, externals=(), unfold_depth=None, no_native_replay=False, yield_fresh=None, yield_post_call=None):
         self.target = target
         self.modname, self.qualname = target.split(":")
         self.params = params or {}
@@ -364,6 +364,8 @@ class Contract(object):
         self.when = when                    # call-site applicability: lambda over call arguments
         self.external_args = list(external_args)
         self.no_native_replay = no_native_replay
+        self.yield_fresh = yield_fresh          # maker of a fresh element for call sites (contracts by yield_post)
+        self.yield_post_call = yield_post_call  # the part of yield_post assumed at call sites
         self.unfold_depth = unfold_depth     # rounds of definitional unfolding of spec functions per obligation
         self.externals = list(externals)     # assumed contracts of external callees (checked natively during replay)
         self.result_pytype = result_pytype   # python type of the unmodelled result of an external callee
